@@ -206,6 +206,9 @@ class Randomizer(RandIF):
                     active_randsets.append(rs)
                     for f in rs.all_fields():
                         f.dispose()
+                        # Lock, as after a successful solve: a later call that only
+                        # references this field must not treat it as a solve target
+                        f.set_used_rand(False, 0)
                     # Solver nodes cached by dynamic expressions die with this solver
                     for c in rs.constraints():
                         c.accept(reset_v)
